@@ -69,6 +69,35 @@ def o_same_content(w, args):
         return '[%s/content-differs] copy and source differ on %s' % (api, diff)
     return None
 
+@oracle('deepcopy-filt')
+def o_deepcopy_filt(w, args):
+    """copy.deepcopy of a filtration: same current index, same content and births at every index, nothing shared"""
+    f = w.vars[args[0]]
+    d = _copy.deepcopy(f)
+    if d.getIndex() != f.getIndex():
+        return '[deepcopy/index] the deep copy of a filtration at index %r stands at index %r' % (f.getIndex(), d.getIndex())
+    if [tok(s) for s in d.simplices()] != [tok(s) for s in f.simplices()]:
+        return '[deepcopy/content-differs] the deep copy lists %s, the source %s' % ([tok(s) for s in d.simplices()][:8], [tok(s) for s in f.simplices()][:8])
+    if list(d.indices()) != list(f.indices()):
+        return '[deepcopy/indices] indices() %s in the copy, %s in the source' % (list(d.indices()), list(f.indices()))
+    i0 = f.getIndex()
+    try:
+        for i in list(f.indices()):
+            f.setIndex(i); d.setIndex(i)
+            if content(d) != content(f):
+                return '[deepcopy/content-differs] at index %r the deep copy and the source differ' % (i,)
+            for s in f.simplices():
+                if d.addedAtIndex(s) != f.addedAtIndex(s):
+                    return '[deepcopy/birth-differs] %s' % tok(s)
+                if d[s] is f[s]:
+                    return '[deepcopy/shares-attributes] the attribute dictionary of %s is shared with the source' % tok(s)
+                for k, v in f[s].items():
+                    if isinstance(v, (list, dict)) and d[s].get(k) is v:
+                        return '[deepcopy/shares-attribute-value] the value of %s[%r] is the same object in the copy' % (tok(s), k)
+    finally:
+        f.setIndex(i0)
+    return None
+
 @oracle('fresh')
 def o_fresh(w, args):
     """<new> shares no attribute dictionary and no representation object with any other variable"""
@@ -455,6 +484,18 @@ def o_c17(w, args):
                 m = decoded_ok(read_json(path), 'read_json-after-overwrite')
             except ValueError as e:
                 m = '[read_json/overwrite] write_json over an existing longer file, then read_json: %s' % e
+        if not m:
+            # every read decodes the file afresh: editing one result does not show in the next, and a file
+            # replaced behind the library's back is read as it now is
+            r1 = read_json(path)
+            r1.addSimplex(id='__edited_after_reading__')
+            m = decoded_ok(read_json(path), 'read_json-second-read')
+            if not m:
+                with open(path, 'w') as fh:
+                    fh.write(as_json(SimplicialComplex()))
+                r3 = read_json(path)
+                if len(r3.simplices()) != 0:
+                    m = '[read_json/stale] the file was replaced by the encoding of an empty complex, read_json still returns %d simplices' % len(r3.simplices())
     finally:
         os.unlink(path)
     if m: return m
